@@ -1,6 +1,7 @@
 import Ptn.C20.Model
 import Ptn.C20.Lemmas
 import Ptn.C20.ExpLemmas
+import Ptn.C20.Flow
 /-! Property theorems for C20. Only property theorems and non-vacuity examples live here.
 
   The dispatch theorems are about the executable model `Ptn.C20.timeEvolve` / `fastExpAction`
@@ -50,6 +51,16 @@ theorem dispatch_total (m : Mode) (f : Bool) (n : Nat) (shape : List Nat) :
   cases m <;> simp [timeEvolve, Mode.isScipy, Mode.inScipyList, Mode.fastestEquivalent,
     Mode.value, fastExpAction]
   split <;> simp
+
+/-- `FASTEST` takes exactly the `CHEBYSHEV` route: `expm_multiply` with `traceA`, through
+    `fast_exp_action`, time as a factor — in `is_scipy` via `fastest_equivalent()`, in
+    `fast_exp_action` via `"fastest" ↦ "chebyshev"`; only the string handed over differs. -/
+theorem fastest_is_chebyshev_route (f : Bool) (n : Nat) (shape : List Nat) :
+    (timeEvolve .fastest f n shape).routine = .expmMultiply ∧
+    { timeEvolve .fastest f n shape with feaArg := some "chebyshev" } =
+      timeEvolve .chebyshev f n shape := by
+  constructor <;> simp [timeEvolve, Mode.isScipy, Mode.inScipyList, Mode.fastestEquivalent,
+    Mode.value, fastExpAction]
 
 /-- A mode string outside the six known ones raises `NotImplementedError`; `"none"` returns the
     vector unchanged (unreachable from `TimeEvoMode` by `dispatch_total`). -/
@@ -187,6 +198,27 @@ theorem exponent_spec (H : Matrix ι ι ℂ) (t : ℝ) :
   unfold exponent
   rw [h1, h2]
   constructor <;> congr 1 <;> ring
+
+/-- The ODE branch (`time=span`): `solve_ivp` integrates `y' = (c·H) y` from `0`.  In matrix form
+    (the columns of `V` are simultaneous solution vectors): `u ↦ exp(u·c·H) V₀` solves the equation
+    with `V(0) = V₀`, and every solution equals it — so the exact value at the end `t` of the span is
+    `exp(exponent) V₀`, the same propagator the `fast_exp_action` branch (`time=factor`) applies. -/
+theorem ode_branch_flow (H : Matrix ι ι ℂ) (f : Bool) :
+    (∀ (V0 : Matrix ι ι ℂ) (u : ℝ),
+      HasDerivAt (fun u : ℝ => exp (exponent (rhsCoeff f) H u) * V0)
+        (((rhsCoeff f).toComplex • H) * (exp (exponent (rhsCoeff f) H u) * V0)) u) ∧
+    (∀ V0 : Matrix ι ι ℂ, exp (exponent (rhsCoeff f) H 0) * V0 = V0) ∧
+    (∀ V : ℝ → Matrix ι ι ℂ, (∀ u, HasDerivAt V (((rhsCoeff f).toComplex • H) * V u) u) →
+      ∀ t, V t = exp (exponent (rhsCoeff f) H t) * V 0) := by
+  refine ⟨?_, ?_, ?_⟩
+  · intro V0 u
+    have := flow_exists ((rhsCoeff f).toComplex • H) V0 u
+    simpa only [exponent_eq_real_smul] using this
+  · intro V0
+    rw [(zero_duration_id H f).1, Matrix.one_mul]
+  · intro V hV t
+    rw [exponent_eq_real_smul]
+    exact flow_unique _ V hV t
 
 end analytic
 
